@@ -14,8 +14,8 @@ META = {
     "engine": "A (exhaustive input enumeration)",
     "rule": "a case = (generating set | graph) with all its cuts, or one solver target; non-trivial = some cut has entropy > 0; "
             "distinct = distinct generating sets / graphs",
-    "bounds": {"quick": "all 181 806 presentations n<=3; all graphs n<=5 through the four height entry points; solver + emitter_sorted on all graphs n<=5",
-               "thorough": "+ all graphs n=6 (32768) for heights and solver; S_4 canonical + single row additions"},
+    "bounds": {"quick": "all 181 806 presentations n<=3; all graphs n<=5 through the four height entry points; solver + emitter_sorted on all graphs n<=5; 5 qubits: every 2nd of the 32768 states H_A(I|Gamma) for 4 Hadamard subsets A",
+               "thorough": "+ all graphs n=6 (32768) for heights and solver; S_4 canonical + single row additions; 5 qubits: all Gamma x all 32 subsets (every 5-qubit stabilizer state up to signs)"},
     "assumptions": ["Schmidt rank computed by numpy SVD with threshold 1e-9 (singular values of stabilizer states are 0 or 2^-k/2)"],
 }
 
@@ -59,6 +59,10 @@ def shards(tier):
             out.append({"kind": "graphs", "n": n, "lo": a, "hi": min(ng, a + 256)})
         for a in range(0, ng, 32):
             out.append({"kind": "solver", "n": n, "lo": a, "hi": min(ng, a + 32)})
+    # 5 qubits: states H_A (I | Gamma) (every 5-qubit stabilizer state up to signs has this form), heights against GF(2) cut entropies
+    for A in ((3, 12, 21, 30) if tier == "quick" else tuple(range(32))):
+        for a in range(0, 1 << 15, 1 << 13):
+            out.append({"kind": "lag5", "A": A, "lo": a, "hi": a + (1 << 13), "step": 2 if tier == "quick" else 1})
     if tier == "thorough":
         for a in range(0, 36720, 720):
             out.append({"kind": "s4", "lo": a, "hi": a + 720})
@@ -86,6 +90,18 @@ def check_heights(acc, xm, zm, want, case):
 
 def run_shard(shard, tier, acc):
     kind = shard["kind"]
+    if kind == "lag5":
+        from .c11 import lagrangian
+        for mask in range(shard["lo"], shard["hi"], shard["step"]):
+            grp = lagrangian(5, mask, shard["A"], mask & 31)
+            want = group_heights(grp)
+            tab = gq.group_to_stabilizer_tableau(grp)
+            check_heights(acc, tab.x_matrix.copy(), tab.z_matrix.copy(), want, {"n": 5, "gens": grp.strings()})
+            acc.state((5, tuple(want)))
+            if any(want):
+                acc.nontriv_fast(tuple(grp.gens))
+        acc.sample({"n": 5, "gens": grp.strings(), "heights": want})
+        return
     if kind == "pres":
         n = shard["n"]
         st = spaces.stabilizer_states(n)
